@@ -437,6 +437,24 @@ def _fs_checks(res=None):
         expect("existing-dirpath", missing, True)
         expect("existing-dirpath", missing_in_missing, False)
         expect("existing-dirpath", os.path.join(f, "x"), False)
+        # the same questions asked through symbolic links (to a directory, to a file, dangling)
+        ld = os.path.join(base, "link-to-dir")
+        lf = os.path.join(base, "link-to-file")
+        dangling = os.path.join(base, "dangling")
+        os.symlink(d, ld)
+        os.symlink(f, lf)
+        os.symlink(os.path.join(base, "nowhere"), dangling)
+        expect("existing-directory", ld, True)
+        expect("existing-directory", lf, False)
+        expect("existing-directory", dangling, False)
+        expect("existing-path", ld, True)
+        expect("existing-path", lf, True)
+        expect("existing-path", dangling, False)
+        expect("existing-file", lf, True)
+        expect("existing-file", dangling, False)
+        expect("existing-dirpath", os.path.join(ld, "new"), True)
+        expect("existing-dirpath", os.path.join(ld, "file.txt"), True)
+        expect("existing-dirpath", os.path.join(dangling, "new"), False)
         cwd = os.getcwd()
         os.chdir(base)
         try:
@@ -458,6 +476,28 @@ def _fs_checks(res=None):
                 if got != ok or (ok and v != value):
                     out.append(failure("%s:relative" % name, {"kind": "fs", "type": name,
                                                             "relative": value}, "%r" % got))
+            # what exists in the current directory has no say in how an address is classified
+            import socket as _socket
+            before = {}
+            probes = ["8100", "localhost", "host:80", "Example.COM", "[::1]:80"]
+            for v_ in probes:
+                before[v_] = normalise("socket-address", reg.get("socket-address")(v_))
+            for nm_ in ("8100", "localhost", "Example.COM"):
+                sk = _socket.socket(_socket.AF_UNIX)
+                try:
+                    sk.bind(os.path.join(base, nm_))
+                except OSError:
+                    pass
+                finally:
+                    sk.close()
+            for v_ in probes:
+                after = normalise("socket-address", reg.get("socket-address")(v_))
+                if res is not None:
+                    res.evaluations += 1
+                if after != before[v_]:
+                    out.append(failure("socket-address:depends-on-current-directory",
+                                       {"kind": "fs", "type": "socket-address", "relative": v_},
+                                       "%r with a socket of that name in the current directory, %r without" % (after, before[v_])))
         finally:
             os.chdir(cwd)
         for value, ok in (("C", True), ("POSIX", True), ("", True),
